@@ -3,6 +3,7 @@ package main
 import (
 	"fmt"
 	"math/rand"
+	"net"
 	"os"
 	"sort"
 	"strconv"
@@ -129,6 +130,12 @@ func runScenario(sc Scenario, dir string) ([]verif.Event, *RunResult) {
 		if r.quiescentSnapshot(fmt.Sprintf("phase%d", ph)) {
 			res.Snapshots++
 		}
+	}
+	if sc.Vanish {
+		r.vanishStep()
+	}
+	if sc.RdyZero {
+		r.rdyZeroStep()
 	}
 	// ---- drain
 	atomic.StoreInt32(&r.draining, 1)
@@ -499,4 +506,100 @@ func (c *countingRecorder) Take() []verif.Event {
 	evs := c.evs
 	c.evs = nil
 	return evs
+}
+
+// vanishStep: a consumer subscribes with RDY 1 and a 1 s heartbeat (= write deadline), then stops reading; a
+// message larger than the socket buffers is published; the daemon's write to that consumer fails. The message
+// was in flight to a consumer that vanished: it must come back (C01).
+func (r *Run) vanishStep() {
+	t := r.sc.Topics[0]
+	r.httpAdmin("/channel/create?topic=" + t + "&channel=vch")
+	cn, err := dial(r.nd.TCP, r.newConnName("van"))
+	if err != nil {
+		r.inconclusive("vanish dial: %v", err)
+		return
+	}
+	if tc, ok := cn.c.(*net.TCPConn); ok {
+		tc.SetReadBuffer(4096)
+	}
+	if _, err := cn.identify(map[string]interface{}{"heartbeat_interval": 1000}); err != nil {
+		r.inconclusive("vanish identify: %v", err)
+		return
+	}
+	if err := cn.sub(t, "vch"); err != nil {
+		r.inconclusive("vanish sub: %v", err)
+		return
+	}
+	cn.hold = make(chan struct{}) // from now on nothing is read from the socket
+	cn.cmd("RDY", "", "1")
+	time.Sleep(50 * time.Millisecond)
+	key := "p98-00000"
+	body := make([]byte, 6<<20)
+	copy(body, key+"|")
+	for i := len(key) + 1; i < len(body); i++ {
+		body[i] = byte('a' + i%26)
+	}
+	rec := r.record(key, t, body, 0, "HTTP")
+	hlib.Emit("HPub", "key", key, "via", "HTTP", "t", t, "defer", 0, "now", time.Now().UnixNano())
+	if st, _, err := r.nd.post("/pub?topic="+t, body); err == nil && st == 200 {
+		r.markAcked([]*pubRec{rec})
+	}
+	time.Sleep(2500 * time.Millisecond)
+	cn.c.Close()
+	close(cn.hold)
+}
+
+// rdyZeroStep: an idle consumer on its own channel evaluates "ready" and parks; then its RDY goes to 0 (or it
+// sends CLS, or its channel is paused); more than a second later a message is published. Nothing newer than the
+// change may be sent to it (C03).
+func (r *Run) rdyZeroStep() {
+	t := r.sc.Topics[0]
+	r.httpAdmin("/channel/create?topic=" + t + "&channel=zch")
+	z, err := r.newConsumer(t, "zch", 0, 1)
+	if err != nil {
+		r.inconclusive("rdyzero consumer: %v", err)
+		return
+	}
+	if _, err := z.cn.barrier(20 * time.Second); err != nil {
+		r.inconclusive("rdyzero barrier: %v", err)
+		return
+	}
+	time.Sleep(50 * time.Millisecond)
+	switch r.rng.Intn(4) {
+	case 0:
+		z.cn.cmd("RDY", "", "0")
+		z.rdy = 0
+	case 1:
+		z.cn.cmd("CLS", "", "")
+		z.closing = true
+	case 2:
+		z.cn.cmd("RDY", "", "3")
+		z.cn.cmd("RDY", "", "0")
+		z.rdy = 0
+	default:
+		r.httpAdmin("/channel/pause?topic=" + t + "&channel=zch")
+	}
+	if _, err := z.cn.barrier(20 * time.Second); err != nil && !z.closing {
+		r.inconclusive("rdyzero barrier: %v", err)
+		return
+	}
+	time.Sleep(1300 * time.Millisecond)
+	key, body := "p97-00000", []byte("p97-00000|after the change")
+	rec := r.record(key, t, body, 0, "HTTP")
+	hlib.Emit("HPub", "key", key, "via", "HTTP", "t", t, "defer", 0, "now", time.Now().UnixNano())
+	if st, _, err := r.nd.post("/pub?topic="+t, body); err == nil && st == 200 {
+		r.markAcked([]*pubRec{rec})
+	}
+	time.Sleep(300 * time.Millisecond)
+	// client-side view of the same clause: the connection must not have been handed the message
+	for {
+		f, ok := z.cn.next(10 * time.Millisecond)
+		if !ok {
+			break
+		}
+		if f.Type == 2 && keyOf(f.Body) == key {
+			r.failf("[C03] a message published 1.3 s after the consumer's RDY 0 / CLS / channel pause had been processed was sent to it")
+			z.held[f.ID] = time.Now()
+		}
+	}
 }
